@@ -294,13 +294,9 @@ func famFrontends(tw *traceWriter, r *rand.Rand, n int) {
 				root = ptr(sch, false) // the same record behind a top-level pointer
 			}
 			c := &Case{ID: id + "-" + fe, Mode: "parse", Fe: fe, Schema: root, Input: in}
-			// url-encoded values keep their surrounding whitespace (only a value that is ALL whitespace is absent)
-			save := strStyle
-			if (fe == "form" || fe == "query" || fe == "map") && i%2 == 1 {
-				strStyle = 1
-			}
+			// (emitCase alternates the string style: every other case carries strings with surrounding whitespace, which
+			// url-encoded sources must keep -- only a value that is ALL whitespace is absent)
 			tw.emitCase(c, "fe", false)
-			strStyle = save
 		}
 		tw.grp = ""
 	}
@@ -357,12 +353,7 @@ func famFlat(tw *traceWriter, r *rand.Rand, n int) {
 				in = mapIn(top...)
 			}
 			c := &Case{ID: fmt.Sprintf("fl%d-%s", i, fe), Mode: "parse", Fe: fe, Schema: sch, Input: in}
-			save := strStyle
-			if (fe == "form" || fe == "query") && i%2 == 1 {
-				strStyle = 1
-			}
 			tw.emitCase(c, "", false)
-			strStyle = save
 		}
 	}
 }
